@@ -354,7 +354,7 @@ def Piece.wf (d : Delims) (next : Str) : Piece → Bool
     allSpace ws1 && allSpace ws2 && !headIs isSpace e && !lastIs isSpace e &&
     (e ≠ [] || ws2 = []) &&
     (l || ws1 ≠ [] || (!headIs (· == '-') e && (e ≠ [] || !r))) &&
-    allSuffixes (fun t => !closesHere d.stmtE t) e (ws2 ++ hy r ++ d.stmtE)
+    allSuffixes (fun t => !closesHere d.stmtE t) e (ws2 ++ hy r ++ d.stmtE ++ next)
   | .tag l r ws0 name ws1 e ws2 =>
     allSpace ws0 && allSpace ws1 && allSpace ws2 && !headIs isSpace e && !lastIs isSpace e &&
     (name = kwHash || name.all isWord) &&
@@ -363,15 +363,15 @@ def Piece.wf (d : Delims) (next : Str) : Piece → Bool
     (name ≠ [] || (ws1 = [] && !headIs isWord e && !headIs (· == '#') e)) &&
     (name = [] || name = kwHash || ws1 ≠ [] || !headIs isWord e) &&
     (l || ws0 ≠ [] || name ≠ [] || (!headIs (· == '-') e && (e ≠ [] || !r))) &&
-    allSuffixes (fun t => !closesHere d.tagE t) e (ws2 ++ hy r ++ d.tagE)
+    allSuffixes (fun t => !closesHere d.tagE t) e (ws2 ++ hy r ++ d.tagE ++ next)
   | .raw o body c =>
-    o.wf && c.wf && allSuffixes (fun t => !endTagHere d kwEndraw t) body (c.src d kwEndraw)
+    o.wf && c.wf && allSuffixes (fun t => !endTagHere d kwEndraw t) body (c.src d kwEndraw ++ next)
   | .doc o body c =>
-    o.wf && c.wf && allSuffixes (fun t => !endTagHere d kwEnddoc t) body (c.src d kwEnddoc)
+    o.wf && c.wf && allSuffixes (fun t => !endTagHere d kwEnddoc t) body (c.src d kwEnddoc ++ next)
   | .short l r body =>
     d.cmtS ≠ [] &&
     (l || (!headIs (· == '-') body && (body ≠ [] || !r))) &&
-    allSuffixes (fun t => !(startsWith d.cmtE t || startsWith ('-' :: d.cmtE) t)) (hy l ++ body) (hy r ++ d.cmtE)
+    allSuffixes (fun t => !(startsWith d.cmtE t || startsWith ('-' :: d.cmtE) t)) (hy l ++ body) (hy r ++ d.cmtE ++ next)
 
 /-- every piece is well formed in its context and no two text pieces are adjacent -/
 def srcWf (d : Delims) : List Piece → Bool
